@@ -157,10 +157,7 @@ def run(ctx) -> None:
     n = ctx.budget(80, 700)
     for k in range(n):
         recipe = make_recipe(ctx, k)
-        try:
-            examine(ctx, recipe, items)
-        except Exception as e:
-            raise RuntimeError(f'harness failure on recipe {recipe}: {e}') from e
+        ctx.guarded(lambda: examine(ctx, recipe, items), {'recipe': recipe})
     if ctx.searching and ctx.driver is None:
         ctx.evaluated(len(items))
         return
